@@ -777,6 +777,10 @@ class Builder:
             classes += list(sig[1])
         case = {"id": cid, "fname": fname, "cells": cells, "args": args, "errno": rng.randint(0, 150),
                 "classes": classes, "nargs": len(args)}
+        if sig[0] == "smake" and expect == "" and len(args) == len(at) and not force_ok:
+            # result objects are independent copies: the same function is called once more with other values
+            # (result dropped) BEFORE the first result is read
+            case["after"] = [self.arg(t, rng.choice(self.classes_for(sig, pos, t)[0]), cells, 1) for pos, t in enumerate(at)]
         if sig[0] == "asum" and classes and classes[0] in ("sl_short", "sl_dict", "sl_empty") and len(args) == 2:
             # the same call with fully initialised non-zero items first: leaves a dirty heap block of that size
             case["prime"] = [self.pstruct_arg(at[0], "sl_full", n), ["int", str(n)]]
